@@ -846,8 +846,6 @@ def check_case(case, replies, rep):
                 rinp = dict(inp, sigma=sg, row=i, env=e)
                 if merr is None and not close(got, mv):
                     rep.disagree("drivers/C10.lean pevalvol: volume of D(**sigma)", rinp, got, mv)
-                if "uservol" in kinds(node):
-                    continue      # user volumes are not carried over by __call__ (documented limit, see design notes)
                 try:
                     true = measure(node, full)
                 except KeyError:
